@@ -246,4 +246,17 @@ def parseOut (line : String) : Option ImplOut :=
 def eventKey (e : String) : String := (e.splitOn " ").getD 1 ""
 def eventVerb (e : String) : String := (e.splitOn " ").getD 0 ""
 
+/-- between the brackets of `tag=[...]` in a printed object. -/
+def listField (objStr tag : String) : List String :=
+  match objStr.splitOn (tag ++ "=[") with
+  | _ :: rest :: _ =>
+    let inner := (rest.splitOn "]").headD ""
+    if inner.isEmpty then [] else inner.splitOn ","
+  | _ => []
+
+def scalarField (objStr tag : String) : String :=
+  match objStr.splitOn ("," ++ tag ++ "=") with
+  | _ :: rest :: _ => ((rest.splitOn ",").headD "").takeWhile (· ≠ '}') |>.toString
+  | _ => ""
+
 end Pko.Drv.PhaseCommon
